@@ -16,7 +16,7 @@ def cases(draw):
     d = draw(st.sampled_from(impl.DRAFTS))
     s = draw(GS.schema_object(d, GS.schemas(d, 6)))
     xs = draw(GI.instances_for(s, 3))
-    return {"draft": d, "schema": s, "instances": xs, "probes": 24}
+    return {"draft": d, "schema": s, "instances": xs, "probes": 24, "alias": draw(st.integers(0, 5)) == 0}
 
 
 def attributed(e):
@@ -100,6 +100,9 @@ class C05(Prop):
         res = Result()
         res.evals = 0
         d, s = case["draft"], case["schema"]
+        if case.get("alias"):
+            s = impl.alias_equal(s)
+            res.labels.append("aliased")
         cls = impl.CLS[d]
         if not isinstance(s, dict) or walk.has_ref(d, s):
             res.excluded = "not-an-object-or-has-ref"
